@@ -40,6 +40,10 @@ type context struct {
 	// characters of a tag name or of an attribute name: whether that name is complete
 	// depends on the text that follows the template node. Ignored by eq.
 	nameOpen bool
+	// tagNameOpen reports the same for the tag name alone. It survives the joining of
+	// a branch that ends directly after the tag name with one that went on to an
+	// attribute name. Ignored by eq.
+	tagNameOpen bool
 }
 
 // eq returns whether Context c is equal to Context d.
